@@ -51,6 +51,8 @@ def gen_history(rng, incoming):
                 evs.append("clone"); refs += 1
             elif c < 0.7 and not closed:
                 evs.append("frame")
+            elif c < 0.78:
+                evs.append("other")                     # a request to another destination scans the connection table
             elif c < 0.85 and not incoming:
                 evs.append("select"); refs += 1      # if not reused the harness keeps the new handle separately
             elif c < 0.92 and not closed:
@@ -79,12 +81,26 @@ def gen_cases(rng, tier):
             for d in (31999, 32001):
                 g = (["drop"] if pre else []) + ["adv:%d" % d, "adv:2", "frame", "adv:31999", "adv:2"]
                 cases.append(["e%d" % k, "c15", init, ";".join(g)]); k += 1
+    for init in ("out", "in"):
+        pre = "drop;" if init == "out" else ""
+        for g in (pre + "adv:20000;other;adv:11999", pre + "adv:20000;other;adv:12001", pre + "adv:31999;other;adv:2", pre + "adv:10000;other;adv:10000;other;adv:12001",
+                  pre + "adv:20000;other,other;adv:13000;adv:20000"):
+            cases.append(["e%d" % k, "c15", init, g]); k += 1
     for g in ("drop,frame", "drop,frame,frame", "drop,close", "drop,garbage", "drop;adv:5;select;drop,frame", "clone,drop,drop,frame",
               "drop,select", "frame,drop;adv:32001", "drop;adv:31999;frame;adv:31999;adv:2", "close;select", "garbage;select;drop",
               "drop;adv:32001;select", "drop;adv:31999;select;adv:40000;drop;adv:32001",
               "drop,select;adv:32001", "drop,select;adv:40000;frame", "drop,select;adv:31999;adv:2;select", "drop,select,drop;adv:32001"):
         cases.append(["e%d" % k, "c15", "out", g]); k += 1
     return cases
+
+
+def model_case(case, impl):
+    """a selection for an unrelated destination does not concern the connection under test: the model does not see it"""
+    groups = []
+    for g in case[3].split(";"):
+        evs = [e for e in g.split(",") if e and e != "other"]
+        groups.append(",".join(evs) if evs else "adv:0")
+    return case[:3] + [";".join(groups)] + case[4:]
 
 
 def _sim_track(case):
